@@ -346,6 +346,72 @@ func newModel(thorough bool) *chainprop.Model {
 	return m
 }
 
+// ---------------------------------------------------------------- (c) evidence is counted per shard
+
+// shardedEvidence: ceremonies with one or two shards driven through the real ApplyNewEpoch. Every candidate is a
+// Verified identity without required flips that answered both sessions, so its new status is decided by the evidence
+// alone: it stays Verified iff a majority (n/2+1) of the evidence maps sent by candidates of ITS OWN shard approve
+// it, otherwise it missed the short session and is Suspended. Enumerated: every assignment of 5 evidence masks to
+// the 3 candidates of shard 1 x 9 shapes of the other shard (absent, 2 or 4 candidates, 4 uniform masks).
+func shardedEvidence(run *report.Run) {
+	dom1 := []int{-1, 7, 6, 1, 0}
+	type other struct {
+		size, mask int
+	}
+	others := []other{{0, 0}}
+	for _, sz := range []int{2, 4} {
+		for _, mk := range []int{-1, (1 << uint(sz)) - 1, 1, 0} {
+			others = append(others, other{sz, mk})
+		}
+	}
+	for _, ot := range others {
+		for code := 0; code < 125; code++ {
+			m1 := []int{dom1[code%5], dom1[code/5%5], dom1[code/25]}
+			sizes := []int{3}
+			masks := [][]int{m1}
+			if ot.size > 0 {
+				sizes = append(sizes, ot.size)
+				var m2 []int
+				for i := 0; i < ot.size; i++ {
+					m2 = append(m2, ot.mask)
+				}
+				masks = append(masks, m2)
+			}
+			failed, st := ceremony.VerifShardedEpoch(sizes, masks)
+			run.Add("c_sharded_epochs", 1)
+			if failed {
+				run.Add("c_sharded_epochs_failed_as_a_whole", 1)
+				continue
+			}
+			for s := range sizes {
+				n := 0
+				for _, mk := range masks[s] {
+					if mk >= 0 {
+						n++
+					}
+				}
+				for i := 0; i < sizes[s]; i++ {
+					score := 0
+					for _, mk := range masks[s] {
+						if mk >= 0 && mk&(1<<uint(i)) != 0 {
+							score++
+						}
+					}
+					want := state.Suspended
+					if score >= n/2+1 {
+						want = state.Verified
+					}
+					run.Add("c_outcomes_judged", 1)
+					if st[s][i] != want {
+						run.Violation("evidence-not-counted-per-shard", fmt.Sprintf("shards %v, evidence masks %v: candidate %d of shard %d is approved by %d of the %d evidence maps of its own shard, so it must become %d, but the epoch result is %d", sizes, masks, i, s+1, score, n, want, st[s][i]), map[string]interface{}{"sizes": sizes, "masks": masks})
+						return
+					}
+				}
+			}
+		}
+	}
+}
+
 func main() {
 	run := report.New("C17")
 	m := newModel(run.Thorough())
@@ -359,6 +425,7 @@ func main() {
 	}
 	run.SetBudget(7*60e9, 20*60e9)
 	decisionTable(run)
+	shardedEvidence(run)
 	depth := 7
 	if run.Thorough() {
 		depth = 9
@@ -386,9 +453,9 @@ func main() {
 		}
 	}
 	run.Set("b_distinct_ceremony_tx_sets", len(bySet))
-	run.Set("evaluations", run.Get("a_decision_tuples")+run.Get("blocks_cross_validated"))
+	run.Set("evaluations", run.Get("a_decision_tuples")+run.Get("blocks_cross_validated")+run.Get("c_sharded_epochs"))
 	run.Set("distinct_nontrivial", run.Get("states"))
 	run.Assume = append(run.Assume, "answers are built with the repository's attachment encoders from fixed per-participant patterns (truth = Left); flips are three god-authored flips in one shard",
 		"map-order deviations on the epoch block are enumerated by C01 on the same driver")
-	run.Finish("model_checking", "(a) full product of the status decision table over 9 prior states x flips done x missed x noQualShort x nonQualLong x 3 upgrade flags x 5 short-qualified counts x 7 total-flip boundaries x float32 neighbours of every score threshold (invariants of the statement + functionality). (b) BFS over whole ceremonies on a 5-participant network: every split of hash submissions and of short/long/evidence reveals (6 subsets, 2 intra-block orders, hostile evidence, non-matching reveal) over the short and long session blocks, then the blocks to the epoch end; every block built by a freshly restarted node, cross-validated by a fresh replica (first evaluation), by a never-restarted node that followed everything, and by a node re-evaluating after having proposed; rule invariants on every epoch result; one outcome per set of on-chain ceremony txs")
+	run.Finish("model_checking", "(a) full product of the status decision table over 9 prior states x flips done x missed x noQualShort x nonQualLong x 3 upgrade flags x 5 short-qualified counts x 7 total-flip boundaries x float32 neighbours of every score threshold (invariants of the statement + functionality). (b) BFS over whole ceremonies on a 5-participant network: every split of hash submissions and of short/long/evidence reveals (6 subsets, 2 intra-block orders, hostile evidence, non-matching reveal) over the short and long session blocks, then the blocks to the epoch end; every block built by a freshly restarted node, cross-validated by a fresh replica (first evaluation), by a never-restarted node that followed everything, and by a node re-evaluating after having proposed; rule invariants on every epoch result; one outcome per set of on-chain ceremony txs. (c) the real ApplyNewEpoch over one- and two-shard ceremonies: 5^3 evidence-mask assignments of a 3-candidate shard x 9 shapes of the other shard; every candidate's result must follow the majority of the evidence maps of its own shard only")
 }
